@@ -302,6 +302,18 @@ def main(n: int, c: bool):
     gate.local_rz(0.25, a)
     gate.local_rz(0.75, b)
 """,
+    # constants of the spec whose value is 0.0 / 0, read while the program is replayed
+    """
+@move
+def main(n: int, c: bool):
+    gate.global_rz(spec.get_float_constant(constant_id="origin"))
+    f0 = schedule.device_fn(k0, [0, 1], [0])
+    f0(1.0 * n, 2.0)
+    gate.global_r(0.5, 1.0 * spec.get_int_constant(constant_id="zero"))
+    if c:
+        gate.global_rz(0.25 + spec.get_float_constant(constant_id="origin"))
+    f0(2.0, 1.0 * spec.get_int_constant(constant_id="zero"))
+""",
 ]
 
 
